@@ -2789,11 +2789,17 @@ class Cond(Generic[X, R], GFI[X, R]):
         # The discard holds the values that were visible in the old trace,
         # i.e. those of the branch selected by the *old* condition.
         merged_discard, _ = self.callee.merge(discard, discard_, tr.check)
-        return (
-            CondTr(self, check, [new_tr, new_tr_]),
-            jnp.where(check, w, w_) + self._branch_switch_correction(tr, check),
-            merged_discard,
+        new_cond_tr = CondTr(self, check, [new_tr, new_tr_])
+        # When the branch changes, the density ratio is taken from the visible scores:
+        # the hidden sub-trace of a branch may hold a value outside that branch's
+        # support (infinite score), which must not enter the weight (inf - inf).
+        same_branch = jnp.asarray(check) == jnp.asarray(tr.check)
+        weight = jnp.where(
+            same_branch,
+            jnp.where(check, w, w_),
+            tr.get_score() - new_cond_tr.get_score(),
         )
+        return (new_cond_tr, weight, merged_discard)
 
     def regenerate(
         self,
